@@ -7,6 +7,9 @@ CHECKS = {
  "C02": ("every (data set <=N, plain-subtotal config) state of 11 schemas covering all nine count-extractor classes plus strands: the six per-cell base matrices, 1-D/2-D margins, table base/margin (scalar/1-D/2-D form decided by array-ness), [min,max] ranges and minimum-base masks at thresholds 1,2 are compared with respondent-level eligibility sums", "4/C02"),
  "C03": ("same state space as C02 incl. the empty survey: proportions must equal oracle count/base (NaN iff base 0), lie in [0,1], percentages = 100x, base elements of a categorical dimension sum to 1, margin proportions = margin/table base; strands likewise", "4/C03"),
  "C04": ("(data set, insertion list) states: ONE insertion with positive/negative over all 1023 subset pairs of ids+stale+missing, pairs and both-dimension lists from a 12-spec alphabet, on CAT/CAT_DATE crossed with CAT, MR, CA, numeric and numeric-array responses and strands; oracles: signed-sum arithmetic, rows-first = columns-first intersections, NaN rules for differences / wave differences, and merge equivalence (every listed measure of a plain subtotal equals the library's own output for the data set with the addends merged)", "4/C04"),
+ "C11": ("states of the C02 family plus difference / both-dimension insertion configs: variance, std-dev, std-err and MoE of row/column/table proportions (and strand twins) must equal the respondent-level weighted variance of the +1/-1/0 indicator over the proportion's base", "4/C11"),
+ "C12": ("every table up to N respondents incl. all degenerate ones (and x3 multiplicities on 2x2): z = adjusted standardized residual from the cell's own bases, p = two-sided normal tail, 2x2 z^2 = Pearson chi-square from respondents, exact-rank < 2 => all NaN", "4/C12"),
+ "C16": ("CAT/MR pairings, 2-D and 3-D, missing category of every dimension at every payload position: column index = 100 x column proportion / (members of the row element over respondents eligible for it, any column answer), NaN on subtotals", "4/C16"),
  "C01": ("every multiset of <=N respondents over each schema's answer-profile alphabet is tabulated into a server payload and the real Cube/partition outputs are compared cell by cell with a respondent-loop oracle; covers all type pairings, missing-category positions, 1-D/2-D/3-D, weighted, numeric and numeric-array responses", "4/C01"),
 }
 PENDING = {}
